@@ -89,10 +89,7 @@ def check_predicates(ctx):
         tv = dict((v, bb) for v, bb in b.term(sw[0][0])['targets'])
         for idx, vname in enumerate(variants):
             key = idx if idx in tv else 'otherwise'
-            tgt, reg = regs[key]
-            rds = [strip_sites(x[2]) for x in ret_defs(tb, reg)]
-            if key == 'otherwise':
-                rds = [strip_sites(x[2]) for x in ret_defs(tb, regs['otherwise'][1])]
+            rds = [strip_sites(x[2]) for x in arm_ret_values(b, tb, sw[0][0], idx)]
             got[vname] = rds
         def rec_on_subject(v):
             a = m_call(v, name='is_subject_assertion', self_suffix='Envelope')
